@@ -110,10 +110,41 @@ pub fn run(_vals: &[u8]) -> Outcome {
             }
         }
     }
+    // S5: stop flag configured (never set), idle_timeout 2 s, one client served 1.2 s after start:
+    // the idle period starts again with that connection
+    {
+        use std::io::{Read, Write};
+        let flag = Arc::new(AtomicBool::new(false));
+        let (a, rx) = spawn_listen("s5", 2, Some(flag.clone()));
+        std::thread::sleep(Duration::from_millis(1050));
+        let t_conn = Instant::now();
+        match connect(&a) {
+            Some(mut c) => {
+                let _ = c.set_read_timeout(Some(Duration::from_millis(700)));
+                let _ = c.write_all(b"{\"method\":\"org.varlink.service.GetInfo\"}\0");
+                let mut one = [0u8; 1];
+                let _ = c.read(&mut one);
+            }
+            None => bad.push("could not connect 1.2 s into a 2 s idle period".into()),
+        }
+        match rx.recv_timeout(Duration::from_secs(6)) {
+            Ok((_, true, _)) => {
+                let since = t_conn.elapsed();
+                if ms(since) < 1800 {
+                    bad.push(format!("timeout {} ms after the last new connection with idle_timeout 2 s (stop flag configured)", ms(since)));
+                }
+            }
+            Ok((ok, tmo, d)) => bad.push(format!("stop flag unset, idle 2 s, one client: ok={} timeout={} after {} ms", ok, tmo, ms(d))),
+            Err(_) => {
+                flag.store(true, Ordering::SeqCst);
+                bad.push("stop flag unset, idle 2 s, one client: no timeout within 6 s".into())
+            }
+        }
+    }
     Outcome {
         reproduced: !bad.is_empty(),
         role: "listen-loop".into(),
-        scenario: "real varlink::listen, timed: idle 1 s; a connection held 2.2 s; stop flag set at 0.4 s; unset stop flag with idle 1 s".into(),
+        scenario: "real varlink::listen, timed: idle 1 s; a connection held 2.2 s; stop flag set at 0.4 s; unset stop flag with idle 1 s; unset stop flag, idle 2 s, a client at 1.2 s".into(),
         detail: bad.join(" | "),
     }
 }
